@@ -295,3 +295,166 @@ Qed.
 Theorem oracle_roundtrip_model c doc doc' : save_doc c doc = Some doc' ->
   roundtrip_b c (load_doc doc') = true.
 Proof. intros Hs. rewrite (roundtrip c doc doc' Hs). apply config_eqb_refl. Qed.
+
+(* ---------------------------------------------------------------- the standalone file *)
+Lemma run_generate_run_with f fl : run_generate f fl = run_with f fl (search f cands).
+Proof. reflexivity. Qed.
+
+(* save_to_file / from_file: exact round trip for every settings value *)
+Theorem flat_roundtrip c : from_flat (flat_json c) = Some c.
+Proof.
+  destruct c as [pp op vl vb vd ip tm ep ipat pc fc fo].
+  unfold from_flat, flat_json, fl_str, fl_obool, fl_ostrs, fl_omap.
+  cbn [lookup String.eqb Ascii.eqb Bool.eqb project_path output_path validation_library verbose visualize_deps
+       include_private type_mappings exclude_patterns include_patterns default_parameter_case
+       default_field_case force dflt].
+  destruct vb as [[|]|], vd as [[|]|], ip as [[|]|], fo as [[|]|]; cbn [ojb];
+    destruct tm as [tm|]; cbn [omap]; try rewrite all_str_vals_map; cbn [option_map];
+    destruct ep as [ep|]; cbn [ostrs]; try rewrite all_strs_map; cbn [option_map];
+    destruct ipat as [ipat|]; cbn [ostrs]; try rewrite all_strs_map; cbn [option_map]; reflexivity.
+Qed.
+
+Lemma fl_str_spec d k dfl s : fl_str d k dfl = Some s -> s = or_else (as_str (get [PKey k] (JObj d))) dfl.
+Proof. unfold fl_str. cbn [get]. destruct (lookup k d) as [[]|]; cbn; intros H; try discriminate; congruence. Qed.
+Lemma fl_obool_spec d k o : fl_obool d k = Some o -> or_else o false = or_else (as_bool (get [PKey k] (JObj d))) false.
+Proof. unfold fl_obool. cbn [get]. destruct (lookup k d) as [[]|]; cbn; intros H; try discriminate; inversion H; reflexivity. Qed.
+
+Lemma from_flat_fields doc c : from_flat doc = Some c -> exists d, doc = JObj d /\
+  fl_str d "project_path" "./src-tauri" = Some (project_path c) /\
+  fl_str d "output_path" "./src/generated" = Some (output_path c) /\
+  fl_str d "validation_library" "none" = Some (validation_library c) /\
+  fl_obool d "verbose" = Some (verbose c) /\ fl_obool d "visualize_deps" = Some (visualize_deps c) /\
+  fl_obool d "force" = Some (force c).
+Proof.
+  destruct doc as [| | | | |d]; try discriminate. intros H. exists d. split; [reflexivity|].
+  unfold from_flat in H. cbn [project_path output_path validation_library dflt default_parameter_case default_field_case] in H.
+  destruct (fl_str d "project_path" "./src-tauri") as [pp|]; [|discriminate].
+  destruct (fl_str d "output_path" "./src/generated") as [op|]; [|discriminate].
+  destruct (fl_str d "validation_library" "none") as [vl|]; [|discriminate].
+  destruct (fl_obool d "verbose") as [vb|]; [|discriminate].
+  destruct (fl_obool d "visualize_deps") as [vd|]; [|discriminate].
+  destruct (fl_obool d "include_private") as [ip|]; [|discriminate].
+  destruct (fl_omap d "type_mappings") as [tm|]; [|discriminate].
+  destruct (fl_ostrs d "exclude_patterns") as [ep|]; [|discriminate].
+  destruct (fl_ostrs d "include_patterns") as [ipat|]; [|discriminate].
+  destruct (fl_str d "default_parameter_case" "camelCase") as [pc|]; [|discriminate].
+  destruct (fl_str d "default_field_case" "snake_case") as [fc|]; [|discriminate].
+  destruct (fl_obool d "force") as [fo|]; [|discriminate].
+  inversion H; subst c. cbn. repeat split; reflexivity.
+Qed.
+
+(* flag over standalone file over default, setting by setting *)
+Theorem precedence_c fl doc c0 : from_flat doc = Some c0 ->
+  eff_of fl (apply_flags fl c0) = spec_eff_c fl doc.
+Proof.
+  intros H. destruct (from_flat_fields doc c0 H) as (d & -> & Hp & Ho & Hl & Hv & Hz & Hf).
+  apply fl_str_spec in Hp. apply fl_str_spec in Ho. apply fl_str_spec in Hl.
+  apply fl_obool_spec in Hv. apply fl_obool_spec in Hz. apply fl_obool_spec in Hf.
+  unfold spec_eff_c, flat_str, flat_bool. cbv zeta.
+  destruct fl as [fp fo fv fvb fvz ff].
+  unfold eff_of, apply_flags, effective, flag_of.
+  cbn [f_project f_output f_validation f_verbose f_visualize f_force
+       project_path output_path validation_library verbose visualize_deps force].
+  rewrite Hp, Ho, Hl. unfold or_else in *.
+  f_equal.
+  - destruct fvb; [reflexivity|]. exact Hv.
+  - destruct fvb; [reflexivity|]. exact Hv.
+  - destruct fvz; [reflexivity|]. exact Hz.
+  - destruct ff; [reflexivity|]. exact Hf.
+Qed.
+
+(* what a run does once its starting configuration is known *)
+Lemma run_with_spec f fl c0 e : eff_of fl (apply_flags fl c0) = e ->
+  if spec_invalid f e
+  then exists err, run_with f fl c0 = RReject err f
+  else (run_with f fl c0 = RNoCommands e f /\ fs_get f (e_project e) <> Some NProj)
+       \/ exists f', run_with f fl c0 = RRun e f' /\ fs_get f (e_project e) = Some NProj
+                     /\ forall p, norm p <> norm (e_output e) -> fs_get f' p = fs_get f p.
+Proof.
+  intros Hp. unfold run_with.
+  set (c := apply_flags fl c0) in *.
+  destruct (validate f c) as [er|] eqn:Ev.
+  - assert (spec_invalid f (eff_of fl c) = true) as Hi.
+    { destruct (spec_invalid f (eff_of fl c)) eqn:E; [reflexivity|]. apply (validate_spec f fl c) in E. congruence. }
+    rewrite Hp in Hi. rewrite Hi. exists er. reflexivity.
+  - apply (validate_spec f fl c) in Ev. rewrite Hp in Ev. rewrite Ev. rewrite <- Hp.
+    cbn [eff_of e_project e_output].
+    destruct (fs_get f (project_path c)) as [[| | |]|] eqn:Eg;
+      try (left; split; [reflexivity|discriminate]).
+    right. eexists. split; [reflexivity|]. split; [reflexivity|].
+    intros p Hn. unfold fs_get, fs_put. apply lookup_insert_other. exact Hn.
+Qed.
+
+(* generate -c: refusal leaves the file system alone; outside C19-8 the run obeys
+   flag over file over default *)
+Theorem generate_c_spec f fl p d c0 :
+  fs_get f p = Some (NDoc (Some d)) -> from_flat d = Some c0 -> kf_cfile_prevalidated f fl p = false ->
+  if spec_invalid f (spec_eff_c fl d)
+  then run_generate_c f fl p = RFail f \/ exists err, run_generate_c f fl p = RReject err f
+  else (run_generate_c f fl p = RNoCommands (spec_eff_c fl d) f /\ fs_get f (e_project (spec_eff_c fl d)) <> Some NProj)
+       \/ exists f', run_generate_c f fl p = RRun (spec_eff_c fl d) f'
+                     /\ fs_get f (e_project (spec_eff_c fl d)) = Some NProj
+                     /\ forall q, norm q <> norm (e_output (spec_eff_c fl d)) -> fs_get f' q = fs_get f q.
+Proof.
+  intros Hg Hd Hk. unfold kf_cfile_prevalidated in Hk. rewrite Hg, Hd in Hk.
+  unfold run_generate_c, from_file. rewrite Hg, Hd.
+  pose proof (run_with_spec f fl c0 _ (precedence_c fl d c0 Hd)) as Hr.
+  destruct (validate f c0) as [er|].
+  - apply negb_false_iff in Hk. rewrite Hk. left. reflexivity.
+  - destruct (spec_invalid f (spec_eff_c fl d)); [right|]; exact Hr.
+Qed.
+
+Theorem generate_c_unreadable f fl p :
+  (forall d c0, fs_get f p = Some (NDoc (Some d)) -> from_flat d = Some c0 -> False) ->
+  run_generate_c f fl p = RFail f.
+Proof.
+  intros H. unfold run_generate_c, from_file.
+  destruct (fs_get f p) as [[| |[d|]|o]|] eqn:Eg; try reflexivity.
+  destruct (from_flat d) as [c0|] eqn:Ed; [|reflexivity]. exfalso. eapply H; [reflexivity|exact Ed].
+Qed.
+
+Lemma generate_c_prevalidated_refuted : exists f fl p d,
+  fs_get f p = Some (NDoc (Some d)) /\ kf_cfile_prevalidated f fl p = true /\
+  spec_invalid f (spec_eff_c fl d) = false /\ run_generate_c f fl p = RFail f.
+Proof.
+  exists [("projB", NProj); ("typegen.json", NDoc (Some (JObj [("output_path", JStr "./outF")])))],
+         {| f_project := Some "./projB"; f_output := None; f_validation := None; f_verbose := false;
+            f_visualize := false; f_force := false |}, "typegen.json".
+  eexists. split; [reflexivity|]. repeat split; reflexivity.
+Qed.
+
+Theorem oracle_flat_roundtrip_model c : flat_roundtrip_b c (from_flat (flat_json c)) = true.
+Proof. rewrite flat_roundtrip. apply config_eqb_refl. Qed.
+
+(* ---------------------------------------------------------------- the build-script loader *)
+Lemma eff_section tg : eff_of no_flags (config_of_section tg) = spec_eff_sec (Some tg).
+Proof. exact (eff_precedence no_flags (Some tg)). Qed.
+Lemma eff_default : eff_of no_flags dflt = spec_eff_sec None.
+Proof. reflexivity. Qed.
+
+Theorem build_precedence f : kf_build_fallback f = false ->
+  eff_of no_flags (build_config f) = spec_eff_build f.
+Proof.
+  unfold kf_build_fallback, spec_eff_build, build_section, build_config, from_tauri_config, load_doc.
+  destruct (fs_get f "tauri.conf.json") as [[| |[d|]|o]|] eqn:Et.
+  3: { (* a readable document *)
+    destruct (get P d) as [tg|].
+    - destruct (validate f (config_of_section tg)); [discriminate|]. intros _. apply eff_section.
+    - intros Hk. destruct (fs_get f "typegen.json") as [[| |[t|]|o]|] eqn:Eg.
+      all: unfold from_file in *; rewrite Eg in *; try apply eff_default.
+      destruct (from_flat t) as [c|] eqn:Ef; [|discriminate].
+      destruct (validate f c); [discriminate|]. exact (precedence_c no_flags t c Ef). }
+  all: intros Hk; destruct (fs_get f "typegen.json") as [[| |[t|]|o2]|] eqn:Eg.
+  all: unfold from_file in *; rewrite Eg in *; try apply eff_default.
+  all: destruct (from_flat t) as [c|] eqn:Ef; [|discriminate].
+  all: destruct (validate f c); [discriminate|]; exact (precedence_c no_flags t c Ef).
+Qed.
+
+Lemma build_fallback_refuted : exists f e f',
+  kf_build_fallback f = true /\ run_build f = RRun e f' /\ e_lib e = "none" /\ e_output e = "./src/generated".
+Proof.
+  exists [("src-tauri", NProj);
+          ("tauri.conf.json", NDoc (Some (JObj [("plugins", JObj [("typegen",
+             JObj [("validationLibrary", JStr "yup"); ("outputPath", JStr "./outF")])])])))].
+  eexists. eexists. split; [reflexivity|]. split; [reflexivity|]. split; reflexivity.
+Qed.
